@@ -976,7 +976,27 @@ _COLL_PARTS_T = [(m, k, c, w, p) for m in ("MKCOL", "MKCALENDAR", "PROPPATCH", "
                  (("tree", "git"), ("tree", "file"), ("bare", "git")) for (w, p) in ((False, "/"), (True, "/dav/"))]
 _WEB_PARTS_T = [(m, w, p) for m in ("PUT", "DELETE", "POST", "GET") for w in (False, True) for p in ("/", "/dav/")]
 
+
+def body_store_step_menu(i0, i1, target):
+    """`body_store_step` over the token menu (see _store.menu_steps): exhaustive for every partition."""
+    return _store.menu_steps(body_store_step, i0, i1, target, with_hist=True)
+
+
+def h_store_step_menu(i0: int, i1: int, target: int) -> bool:
+    """
+    pre: 0 <= i0 < 6 and 0 <= i1 < 6 and 0 <= target < 6
+    post: _
+    """
+    return run(body_store_step_menu, i0, i1, target)
+
 HARNESSES = [
+    Harness("store_step_menu", h_store_step_menu, body_store_step_menu, classes=[("menu:put", ("bare", 0, 0)), ("menu:delete", ("tree", 1, 0))],
+            parts={"quick": _store.parts(mstore.KINDS)}, bounds={"quick": {"n": 2, "blen": 2}, "thorough": {"n": 2, "blen": 2}},
+            budget={"quick": 100, "thorough": 200}, per_path_timeout={"quick": 60, "thorough": 60},
+            describe="the state step of store_step over a menu of 7 body tokens (absent, two contents of one UID, another UID, to-be-normalised, "
+                     "no UID, invalid): pre-state and target chosen by the solver, written body and kind of earlier history "
+                     "looped inside; exhaustive over the menu for every (back end, operation, condition) partition",
+            encodes=_store.STEP_ENCODES),
     Harness("store_step", h_store_step, body_store_step,
             classes=[("put:ok", ("bare", 0, 0)), ("put:invalid", ("tree", 0, 0)), ("put:duplicate", ("vdir", 0, 0)),
                      ("put:etag", ("bare", 0, 3)), ("put:ok", ("tree", 0, 1)), ("delete:ok", ("tree", 1, 1)),
